@@ -2,7 +2,7 @@
 CONFIG = {
     "design_ref": "4.2",
     "technique": "Lean 4 proof: Term::eq/cmp/hash transcribed (pattern-matching form proved equal to the accessor-style text of the Rust default methods); laws proved via an order-preserving injective encoding into List Nat (core TransOrd/LawfulEqOrd); conversions modelled as rebuild-from-accessors and proved to be the identity; source-shape table regenerated from /repo; differential over all ordered pairs of shipped Term representations, every std PartialEq/PartialOrd/Ord/Hash impl, every conversion path",
-    "level_text": "Proof (unbounded, all terms incl. arbitrarily nested quoted triples): for the transcription of Term::eq / Term::cmp / Term::hash and LanguageTag's folded Eq/Ord/Hash: eq is an equivalence, equal terms produce the same Hasher input sequence, cmp is a reflexive total order (swap, transitivity) that is Equal exactly for equal terms (under the RDF well-formedness guard: untagged literals never have datatype rdf:langString) and orders kinds blank < IRI < literal < triple < variable (both directions); language tags (and the literals carrying them: eq, hash, cmp) are insensitive to any ASCII case change; NsTerm's hand-written eq equals the default; from_term / from_term_ref / copy_term (rebuild from kind() + accessors) return the same term (hence an equal one, same hash, cmp Equal), GenericLiteral::try_from_term succeeds exactly on literals with the same literal; graph_name_eq is an equivalence; the wrap!-generated std impls agree with term equality of IRIs / blank nodes / variables. Over the table regenerated from /repo on every run (Gen/TermKind.lean): Kind.rank = the TermKind discriminants and Ord/Hash are derived; every transcribed statement of the default eq/cmp/hash is still in the source; LanguageTag still folds; NsTerm::eq still has the modelled shape; CmpTerm / IsoTerm / ResultTerm / &T / C14nTerm forward every accessor to the wrapped term; all 21 std PartialEq/PartialOrd/Ord/Hash impls of term types are one-line calls of Term::eq/cmp/hash. The tie to every shipped Term implementation (SimpleTerm owned/borrowed/&, CmpTerm<T>, ArcTerm, RcTerm, stash copies, ResultTerm, IriRef/Iri/BnodeId/VarName over str/String/Box/Arc, GenericLiteral, native str,i32,isize,usize,bool,f64, NsTerm, str*NsTerm, str*LanguageTag, Rio Trusted<NamedNode|BlankNode|Variable|Literal|GraphName|Term|GeneralizedTerm> incl. nested quoted triples, JSON-LD RdfTerm and ArcBnode) and to the conversion paths is differential: all ordered pairs of representations must give the model's eq/cmp/hash-equality; all std trait impls (same-type and cross-type) likewise; 3x3 law matrices over all representation pairs; eq symmetric / cmp antisymmetric on every ordered pair of representations. Round 3, also proved: (a) implementation independence: for ANY implementations (arbitrary carrier + accessor functions) whose values expose terms t,u, the default eq/cmp/hash run on them return termEq t u / termCmp t u / termHash t (impl_independent), whatever the fuel above the nesting depth (fuel_irrelevant), the laws hold on values held by three different implementations (laws_across_impls), and from_term run on any such implementation returns t itself (fromImpl_views, conv_any); NsTerm, bool, str, Rio Literal (Simple = xsd:string, tagged = rdf:langString) and every accessor-forwarding wrapper (CmpTerm, IsoTerm, ResultTerm, &T, C14nTerm::Other: views_wrapped) are such implementations; (b) hypotheses: antisymmetry (cmp_swap_all) and 'equal => cmp Equal' (cmp_eq_of_eq) hold for ALL terms without the WF guard; the guard of cmp_trans / cmp_eq_iff is necessary (cmp_trans_needs_wf, witness replayed on the implementation from the corpus: same cmp=eq eq=0 there); (c) equal terms give the same result for any Hasher state machine (eq_hash_any_hasher); (d) a tag (string) that is a proper prefix of another compares Less, never Equal (tagCmp_prefix_lt, lang_prefix_lt); (e) UTF-8 byte order = code point order is now a theorem over Lean core's String.utf8EncodeChar (str_cmp_is_bytewise), no longer an assumption.",
+    "level_text": "Proof (unbounded, all terms incl. arbitrarily nested quoted triples): for the transcription of Term::eq / Term::cmp / Term::hash and LanguageTag's folded Eq/Ord/Hash: eq is an equivalence, equal terms produce the same Hasher input sequence, cmp is a reflexive total order (swap, transitivity) that is Equal exactly for equal terms (under the RDF well-formedness guard: untagged literals never have datatype rdf:langString) and orders kinds blank < IRI < literal < triple < variable (both directions); language tags (and the literals carrying them: eq, hash, cmp) are insensitive to any ASCII case change; NsTerm's hand-written eq equals the default; from_term / from_term_ref / copy_term (rebuild from kind() + accessors) return the same term (hence an equal one, same hash, cmp Equal), GenericLiteral::try_from_term succeeds exactly on literals with the same literal; graph_name_eq is an equivalence; the wrap!-generated std impls agree with term equality of IRIs / blank nodes / variables. Over the table regenerated from /repo on every run (Gen/TermKind.lean): Kind.rank = the TermKind discriminants and Ord/Hash are derived; every transcribed statement of the default eq/cmp/hash is still in the source; LanguageTag still folds; NsTerm::eq still has the modelled shape; CmpTerm / IsoTerm / ResultTerm / &T / C14nTerm forward every accessor to the wrapped term; all 21 std PartialEq/PartialOrd/Ord/Hash impls of term types are one-line calls of Term::eq/cmp/hash. The tie to every shipped Term implementation (SimpleTerm owned/borrowed/&, CmpTerm<T>, ArcTerm, RcTerm, stash copies, ResultTerm, IriRef/Iri/BnodeId/VarName over str/String/Box/Arc, GenericLiteral, native str,i32,isize,usize,bool,f64, NsTerm, str*NsTerm, str*LanguageTag, Rio Trusted<NamedNode|BlankNode|Variable|Literal|GraphName|Term|GeneralizedTerm> incl. nested quoted triples, JSON-LD RdfTerm and ArcBnode) and to the conversion paths is differential: all ordered pairs of representations must give the model's eq/cmp/hash-equality; all std trait impls (same-type and cross-type) likewise; 3x3 law matrices over all representation pairs; eq symmetric / cmp antisymmetric on every ordered pair of representations; every representation is also hashed with a recording Hasher and an Fx-style word-at-a-time Hasher: representations of equal terms must feed the SAME call sequence (the harness-side observation of eq_hash / eq_hash_any_hasher), and the sequence must be the model's termHash rendered call by call (`hashseq`, model-vs-implementation field). Round 3, also proved: (a) implementation independence: for ANY implementations (arbitrary carrier + accessor functions) whose values expose terms t,u, the default eq/cmp/hash run on them return termEq t u / termCmp t u / termHash t (impl_independent), whatever the fuel above the nesting depth (fuel_irrelevant), the laws hold on values held by three different implementations (laws_across_impls), and from_term run on any such implementation returns t itself (fromImpl_views, conv_any); NsTerm, bool, str, Rio Literal (Simple = xsd:string, tagged = rdf:langString) and every accessor-forwarding wrapper (CmpTerm, IsoTerm, ResultTerm, &T, C14nTerm::Other: views_wrapped) are such implementations; (b) hypotheses: antisymmetry (cmp_swap_all) and 'equal => cmp Equal' (cmp_eq_of_eq) hold for ALL terms without the WF guard; the guard of cmp_trans / cmp_eq_iff is necessary (cmp_trans_needs_wf, witness replayed on the implementation from the corpus: same cmp=eq eq=0 there); (c) equal terms give the same result for any Hasher state machine (eq_hash_any_hasher); (d) a tag (string) that is a proper prefix of another compares Less, never Equal (tagCmp_prefix_lt, lang_prefix_lt); (e) UTF-8 byte order = code point order is now a theorem over Lean core's String.utf8EncodeChar (str_cmp_is_bytewise), no longer an assumption.",
     "level_note": "Remains differential (not proof): that each shipped type's accessors expose the intended term (the harness's `view` check per representation: this is the `Views` hypothesis of impl_independent, proved only for the modelled NsTerm / Rio Literal / forwarding wrappers), the native Rust values' lexical forms, ArcStrStash string sharing, and that the transcription matches term.rs beyond the statements the generated table pins. Trusted: Rust's str is UTF-8 as Lean core's encoder defines it (the order theorem is over that encoder); std DefaultHasher only through 'same write sequence => same hash' (proved for any hasher state machine); ASCII case folding hand-transcribed (to_ascii_lowercase). C14nTerm and IsoTerm live in private modules: they are covered by the generated delegation table (source shape), not by the differential. IsoTerm's std PartialEq/Ord are blank-node-agnostic by design and not part of this property. Native TryFromTerm (i32, f64, ...) is value conversion, checked by C20. No native_decide.",
     "tables": ["term_kind"],
     "lean_targets": ["SophiaProofs.Props.C02", "SophiaProofs.Audit.C02"],
@@ -18,7 +18,7 @@ CONFIG = {
                  "gen_kind_disc", "gen_default_shape", "gen_tag_folds", "gen_nsterm_shape", "gen_delegation",
                  "gen_std_impls"],
     "native_ok": [],
-    "trivial_re": r"^eq=0 cmp=(lt|gt) heq=0 cmpeq=0 xk=(lt|gt) sym=1 swap=1 pairs=\d+ ",
+    "trivial_re": r"^eq=0 cmp=(lt|gt) heq=0 hfx=0 hseq=0 cmpeq=0 xk=(lt|gt) sym=1 swap=1 pairs=\d+ ",
     "rule": "pairs (A,B) of abstract terms from small colliding alphabets (all kinds, nesting <= 3, strict and generalized quoted triples, case-variant and multi-subtag language tags, strings at UTF-8 length boundaries, 300-char strings, native-compatible literals, the same string used as IRI / label / variable name / lexical form); 10% identical, 10% equal up to the case of every tag, 40% differing in exactly one component at any depth; each pair is evaluated over ALL ordered pairs of representations of A and B (`pairs`), plus all std trait impls same-type and cross-type (`spairs`); conversion-path requests (c), 3x3 law matrices (t), NsTerm split points incl. prefix+suffix-match-but-longer and empty suffix (ns), string wrappers (w), optional graph names (g); non-trivial = not a plain cross-kind pair; a request with a component outside its wrapper's grammar is answered skip= and carries no oracle",
     "trusted_base": ["Term::eq/cmp/hash transcription lean/SophiaModel/Basic/TermOrder.lean + accessor-style text lean/SophiaModel/Model/TermImpls.lean (proved equal)",
                      "tools/extractors/c02.py (source-shape recogniser, fail-closed)"],
